@@ -987,7 +987,7 @@ def e2e_oracle(ck: Check, camp, case: dict) -> bool:
             links = [(hold[i][0], f"c{i}to{j}", hold[j][0])] + [(owner[k], f"e{k}", hold[k][0]) for k in (i, j) if k in chain_info(case)[0]]
             for cls, member, target in links:
                 ann = members[cls].get(member)
-                leaves = [x for x in (ann_leaves(ann) if ann is not None else []) if x != "None" and x not in WRAPPERS]
+                leaves = [x for x in (ann_leaves(ann) if ann is not None else []) if x != "None" and (x not in WRAPPERS or x == target)]
                 if leaves != [target]:
                     return fail("ref_mislanded", f"{cls}.{member}: {ast.unparse(ann) if ann is not None else None} should name {target}")
     if ift == "jsonschema":
@@ -1029,7 +1029,7 @@ def e2e_oracle(ck: Check, camp, case: dict) -> bool:
     for i, j, kind in case["edges"]:
         if kind == "deepanchor":
             ann = members[owner[i]].get(f"n{i}to{j}")
-            leaves = [x for x in (ann_leaves(ann) if ann is not None else []) if x != "None" and x not in WRAPPERS]
+            leaves = [x for x in (ann_leaves(ann) if ann is not None else []) if x != "None" and (x not in WRAPPERS or x == owner[j])]
             if len(leaves) != 1 or f"mkd{j}x" not in members.get(leaves[0], {}):
                 return fail("ref_mislanded", f"{owner[i]}.n{i}to{j}: {ast.unparse(ann) if ann is not None else None} should name the class of the nested object "
                             f"#/{cont_of(case, j)}/{keys[j]}/properties/sub{j} (member mkd{j}x), which declares $id '#ancsub{j}'",
